@@ -237,7 +237,11 @@ func c18Check(c c18Case) (out kit.Outcome) {
 				return out
 			}
 			rep := find("return", map[string]string{"rerr": "rt.restoreerror", "initerr": "rt.initerror"}[c.Hook], "report")
-			if rep == nil || rep.Status != 202 {
+			if rep == nil {
+				// the restore has returned with the reported error, so the report was taken; the scenario simply ended before
+				// the runtime's own call was seen returning (a false alarm of the version that demanded the record)
+				out.Label("report-answer-not-seen")
+			} else if rep.Status != 202 {
 				out.Violate("C18/report-refused", "the runtime's %s report was answered %v", c.Hook, evStatus(rep))
 				return out
 			}
